@@ -1,20 +1,18 @@
------------------------------- MODULE MC_Grammar ------------------------------
+--------------------------- MODULE MC_GrammarCover ---------------------------
 (***************************************************************************)
-(* Sentence enumeration over the grammar generated from tx3.pest: the state    *)
-(* is a sentential form, Next expands its leftmost non-terminal by one of the   *)
-(* rule's alternatives, bounded by the number of tokens the form must at least  *)
-(* derive.  Every complete sentence (terminals only) is printed as a CASE.      *)
+(* Alternative coverage of the grammar generated from tx3.pest.  MC_Grammar    *)
+(* enumerates every sentence up to a token bound, which leaves long            *)
+(* alternatives of a rule underived.  Here the derivation may deviate from the  *)
+(* shortest expansion (MinAltIx) at most Budget times: every alternative of     *)
+(* every rule within Budget deviations of Root appears in some sentence, each   *)
+(* completed by shortest expansions, whatever its length.                       *)
 (***************************************************************************)
 EXTENDS Grammar, TLC, Json, FiniteSets
 
-CONSTANTS Root, MaxTokens
+CONSTANTS Root, Budget
 
-VARIABLES form, used       \* used: the <<rule, alternative number>> pairs of the derivation (coverage)
-Init == form = <<N(Root)>> /\ used = {}
-
-RECURSIVE MinLen(_, _)
-MinLen(f, i) == IF i > Len(f) THEN 0
-                ELSE (IF f[i].t = "nt" THEN MinTok(f[i].v) ELSE 1) + MinLen(f, i + 1)
+VARIABLES form, used, left
+Init == form = <<N(Root)>> /\ used = {} /\ left = Budget
 
 HasNT(f) == \E i \in DOMAIN f : f[i].t = "nt"
 FirstNT(f) == CHOOSE i \in DOMAIN f : f[i].t = "nt" /\ \A j \in 1..(i-1) : f[j].t # "nt"
@@ -23,9 +21,10 @@ Expand == /\ HasNT(form)
           /\ LET i == FirstNT(form)
                  r == form[i].v
              IN  \E k \in DOMAIN Alts(r) :
+                   /\ k # MinAltIx(r) => left > 0
+                   /\ left' = IF k = MinAltIx(r) THEN left ELSE left - 1
                    /\ form' = SubSeq(form, 1, i - 1) \o Alts(r)[k] \o SubSeq(form, i + 1, Len(form))
                    /\ used' = used \cup {<<r, k>>}
-                   /\ MinLen(form', 1) <= MaxTokens
 Next == Expand
 
 Sentence == ~HasNT(form)
